@@ -279,6 +279,16 @@ def rule_set_unix(ctx, cfg, F):
         if n_closed and not close_bad:
             Rc.ok("closed edge: remove + deregister + close + ChannelClosed on every path (%d paths)" % n_closed, f.loc(rb), cfg)
         Rc.count("closed_paths[%s]" % cfg, n_closed)
+    # the poll instance is shared with every process forked while the set is alive (an epoll descriptor is not copied by fork, it is shared): tearing a set down closes
+    # this process's descriptors and nothing else -- taking members out of the poll there (EPOLL_CTL_DEL) empties the set of the process that goes on using it
+    for g in F.fns.values():
+        if g.impl_trait == "std::ops::Drop" and "OsIpcReceiverSet" in (g.impl_self or ""):
+            dereg = [b for b, t in g.calls() if strip_generics(callee_name(t)).endswith("Registry::deregister")]
+            if dereg:
+                Rc.violate("%s:drop-deregisters-members" % strip_generics(g.path), "dropping a receiver set deregisters its members from the poll instance: a forked child that drops its copy of the set "
+                           "removes them from the parent's set as well, whose select() then waits for ever although messages and closures are pending", g.path, g.loc(dereg[0]), config=cfg)
+            else:
+                Rc.ok("dropping the set closes descriptors and leaves the (shareable) poll instance alone", g.loc(0), cfg)
     # EINTR
     polls = [(b, t) for b, t in f.calls() if strip_generics(callee_name(t)) == "mio::Poll::poll"]
     Re.count("poll_sites[%s]" % cfg, len(polls))
